@@ -731,6 +731,19 @@ func (lb *LoadBalancer) findHealthyBackend(r *http.Request) *Backend {
 			return backend
 		}
 	}
+
+	// Every pick was ejected between the strategy's choice and the re-check
+	// (a burst of failures landing on several backends at once). That does not
+	// make the whole pool unhealthy: never answer "no healthy backend" while
+	// one is eligible - take the first that is.
+	lb.mutex.RLock()
+	backends := lb.strategy.GetBackends()
+	lb.mutex.RUnlock()
+	for _, backend := range backends {
+		if lb.IsBackendHealthy(backend) {
+			return backend
+		}
+	}
 	return nil
 }
 
